@@ -1,8 +1,6 @@
 use crate::*;
 use std::collections::{HashMap, HashSet};
 
-type MangledMap<'a> = HashMap<&'a str, Vec<(&'a (String, Vec<String>), &'a String)>>;
-
 pub fn monomorphize(mut program: AirProgram) -> AirProgram {
     let mut ctx = MonoContext::new(&program);
     ctx.collect_mono_requests(&program);
@@ -277,60 +275,82 @@ impl MonoContext {
         program.mono_instances.extend(mono_instances);
     }
 
+    /// Redirects every call of a generic function made from a non-generic function
+    /// (instances included) to the instance created for exactly the type arguments
+    /// inferred at that call site.
     fn rewrite_call_sites(&self, program: &mut AirProgram) {
-        let name_to_mangled: MangledMap = {
-            let mut map: HashMap<&str, Vec<_>> = HashMap::new();
-            for (key, mangled) in &self.instantiated {
-                map.entry(key.0.as_str()).or_default().push((key, mangled));
-            }
-            map
-        };
-
-        if name_to_mangled.is_empty() {
+        if self.instantiated.is_empty() {
             return;
         }
 
-        for func in &mut program.functions {
+        // (function, block, statement index or None for the terminator, instance name)
+        let mut edits: Vec<(usize, usize, Option<usize>, String)> = Vec::new();
+        for (fi, func) in program.functions.iter().enumerate() {
             if !func.type_params.is_empty() {
                 continue;
             }
-            for block in &mut func.blocks {
-                for stmt in &mut block.stmts {
-                    self.rewrite_stmt(stmt, &name_to_mangled);
+            for (bi, block) in func.blocks.iter().enumerate() {
+                for (si, stmt) in block.stmts.iter().enumerate() {
+                    let call = match &stmt.kind {
+                        AirStmtKind::Assign {
+                            rvalue: Rvalue::Call { func: callee, args },
+                            ..
+                        } => Some((callee, args)),
+                        AirStmtKind::CallVoid { func: callee, args } => Some((callee, args)),
+                        _ => None,
+                    };
+                    if let Some((callee, args)) = call
+                        && let Some(mangled) = self.instance_for_call(callee, args, func, program)
+                    {
+                        edits.push((fi, bi, Some(si), mangled));
+                    }
                 }
-                self.rewrite_terminator(&mut block.terminator, &name_to_mangled);
+                if let AirTerminator::Invoke {
+                    func: callee, args, ..
+                } = &block.terminator
+                    && let Some(mangled) = self.instance_for_call(callee, args, func, program)
+                {
+                    edits.push((fi, bi, None, mangled));
+                }
             }
+        }
+
+        for (fi, bi, si, mangled) in edits {
+            let block = &mut program.functions[fi].blocks[bi];
+            let callee = match si {
+                Some(si) => match &mut block.stmts[si].kind {
+                    AirStmtKind::Assign {
+                        rvalue: Rvalue::Call { func, .. },
+                        ..
+                    } => func,
+                    AirStmtKind::CallVoid { func, .. } => func,
+                    _ => continue,
+                },
+                None => match &mut block.terminator {
+                    AirTerminator::Invoke { func, .. } => func,
+                    _ => continue,
+                },
+            };
+            *callee = Callee::Named(mangled);
         }
     }
 
-    fn rewrite_stmt(&self, stmt: &mut AirStmt, name_map: &MangledMap) {
-        match &mut stmt.kind {
-            AirStmtKind::Assign {
-                rvalue: Rvalue::Call { func: callee, .. },
-                ..
-            } => {
-                self.rewrite_callee(callee, name_map);
-            }
-            AirStmtKind::CallVoid { func: callee, .. } => {
-                self.rewrite_callee(callee, name_map);
-            }
-            _ => {}
-        }
-    }
-
-    fn rewrite_terminator(&self, term: &mut AirTerminator, name_map: &MangledMap) {
-        if let AirTerminator::Invoke { func: callee, .. } = term {
-            self.rewrite_callee(callee, name_map);
-        }
-    }
-
-    fn rewrite_callee(&self, callee: &mut Callee, name_map: &MangledMap) {
-        if let Callee::Named(name) = callee
-            && let Some(entries) = name_map.get(name.as_str())
-            && let Some((_, mangled)) = entries.first()
-        {
-            *name = (*mangled).clone();
-        }
+    /// The instance made for the type arguments this call site infers, if any.
+    fn instance_for_call(
+        &self,
+        callee: &Callee,
+        args: &[Operand],
+        caller: &AirFunction,
+        program: &AirProgram,
+    ) -> Option<String> {
+        let Callee::Named(name) = callee else {
+            return None;
+        };
+        let func_idx = *self.generic_functions.get(name)?;
+        let type_args = self.infer_type_args(&program.functions[func_idx], args, caller)?;
+        self.instantiated
+            .get(&(name.clone(), self.type_args_key(&type_args)))
+            .cloned()
     }
 
     fn type_args_key(&self, types: &[AirType]) -> Vec<String> {
